@@ -65,7 +65,16 @@ fn scenario(rec: &mut Rec, ctx: &Ctx, idx: u64, rng: &mut ChaCha20Rng) {
   };
   let groups = ((groups as f64) * ctx.scale.min(1.0)).ceil() as usize;
   let (t, groups) = if ctx.flag("tiny") { (2u32, 2usize) } else { (t, groups) };
-  let epoch: String = (0..rng.gen_range(0..6)).map(|_| char::from(rng.gen_range(0x61u8..0x7b))).collect();
+  let mut epoch: String = (0..rng.gen_range(0..6)).map(|_| char::from(rng.gen_range(0x61u8..0x7b))).collect();
+  // epochs are arbitrary strings: white space at the edges, multi-byte characters, upper case, long
+  match idx % 7 {
+    1 => epoch = format!(" {}", epoch),
+    2 => epoch = format!("{}\n", epoch),
+    3 => epoch = format!("\t{} ", epoch),
+    4 => epoch = format!("{}\u{e9}\u{4e16}", epoch.to_uppercase()),
+    5 => epoch = epoch.repeat(40),
+    _ => {}
+  }
   let mut expected: Canon = BTreeMap::new();
   let mut messages: Vec<Message> = Vec::new();
   let mut client_id: u64 = 0;
